@@ -45,10 +45,12 @@ def _env():
 
 
 def _fix_stack():
-    # deterministic stack size for the nesting-depth ladders: 8 MiB (the usual default)
+    # deterministic stack size for the nesting-depth ladders.  Frames of the ASan+UBSan build are several
+    # times larger than production frames (redzones, no tail calls, -O1): 64 MiB here corresponds to
+    # roughly the usual 8 MiB of a production build.
     try:
         soft, hard = resource.getrlimit(resource.RLIMIT_STACK)
-        want = 8 << 20
+        want = 64 << 20
         if hard != resource.RLIM_INFINITY and hard < want:
             want = hard
         resource.setrlimit(resource.RLIMIT_STACK, (want, hard))
@@ -57,8 +59,8 @@ def _fix_stack():
 
 
 def _absorb_extra(chk, results):
-    """Lines the generic absorb does not know: features, good bases, ladder crashes."""
-    feats, good, ladders = set(), set(), []
+    """Lines the generic absorb does not know: features, good bases, ladder crashes, crashing inputs."""
+    feats, good, ladders, crashes = set(), set(), [], []
     for rc, out, err in results:
         for r in vcheck.parse_jsonl(out):
             t = r.get('type')
@@ -68,7 +70,16 @@ def _absorb_extra(chk, results):
                 good.add(r['v'])
             elif t == 'ladder_crash':
                 ladders.append(r)
-    return feats, good, ladders
+            elif t == 'crash_input':
+                crashes.append(r)
+    return feats, good, ladders, crashes
+
+
+def _count_by(rows, key):
+    out = {}
+    for r in rows:
+        out[r.get(key)] = out.get(r.get(key), 0) + 1
+    return out
 
 
 def _depth_str(d):
@@ -83,9 +94,21 @@ def main(tier, seed):
     os.makedirs(WORK, exist_ok=True)
     binary = build()
     args = ['--work', WORK, '--repo', vbuild.REPO] + (['--thorough'] if tier == 'thorough' else [])
-    res = vcheck.run_shards(binary, 16, args, env=_env(), timeout=7200)
+    res = vcheck.run_shards(binary, 16, args + ['--stage', '1'], env=_env(), timeout=7200)
     vcheck.absorb(chk, res, 'layer L')
-    feats, good, ladders = _absorb_extra(chk, res)
+    feats, good, ladders, crashes = _absorb_extra(chk, res)
+    chk.set('crashing_inputs_by_signature', _count_by(crashes, 'sig'))
+    if tier == 'thorough':
+        # stage 2: pairs of deviations; a single substitution that already crashes is not extended
+        prune = os.path.join(WORK, 'prune.txt')
+        with open(prune, 'w') as f:
+            for k in sorted(set(c['key'] for c in crashes if c.get('key') and c['key'] != '-')):
+                f.write(k + '\n')
+        res2 = vcheck.run_shards(binary, 16, args + ['--stage', '2', '--prune-file', prune], env=_env(), timeout=7200)
+        vcheck.absorb(chk, res2, 'layer L stage 2')
+        _, _, lad2, crashes2 = _absorb_extra(chk, res2)
+        ladders += lad2
+        chk.set('crashing_inputs_by_signature_stage2', _count_by(crashes2, 'sig'))
 
     # one signature per ladder kind: the smallest depth that overflowed the stack
     by_kind = {}
@@ -108,7 +131,7 @@ def main(tier, seed):
         pres = vcheck.run_shards(pbin, 16, ['--work', WORK, '--repo', vbuild.REPO] +
                                  (['--thorough'] if tier == 'thorough' else []), env=_env(), timeout=7200)
         vcheck.absorb(chk, pres, 'layer P')
-        f2, _, _ = _absorb_extra(chk, pres)
+        f2 = _absorb_extra(chk, pres)[0]
         feats |= set('P:' + f for f in f2)
 
     # ---- vacuity guards
@@ -143,7 +166,7 @@ def main(tier, seed):
             'mp::Problem, NullNLHandler}. A class is (layer, format, deviation kind, handler, outcome, normalised message).')
     chk.set('bounds', {'deviations': 2 if tier == 'thorough' else 1, 'lexer_string_length': 4,
                        'ladder_depth_max': 10 ** 6 if tier == 'thorough' else 10 ** 4,
-                       'alarm_s': 10, 'confirm_alone_s': 120, 'stack_limit': '8 MiB',
+                       'alarm_s': 10, 'confirm_alone_s': 120, 'stack_limit': '64 MiB (sanitizer build)',
                        'asan_max_allocation_mb': 1024})
     chk.assumptions += [
         'oracle for exceptions: with the recording/null handlers (which never throw) every exception must be a located '
@@ -155,8 +178,9 @@ def main(tier, seed):
         'sequence, and the remaining callbacks of the bounds-first read are equal to (complete read) or a prefix of (error) '
         'those of the flags=0 read',
         'file-vs-memory differential compares reads of the same bytes, with the file name passed as the input name',
-        'stack limit fixed at 8 MiB; frames of the sanitizer build are larger than production frames, so the smallest '
-        'overflowing ladder rung is a lower bound for production',
+        'stack limit fixed at 64 MiB for the sanitizer build (its frames are several times larger than production frames; '
+        'with the default 8 MiB the mp::Problem configuration already overflows at depth 1e4 under ASan); the defect shown '
+        'by the ladders is the linear growth of stack use with nesting depth, not a particular threshold',
         'padding to a page multiple inserts a comment before the first line feed (appended spaces if there is none)',
     ]
     shutil.rmtree(WORK, ignore_errors=True)
